@@ -1,7 +1,7 @@
 (* C02 — property theorems (statements only; proofs live in Acme.C02.Proofs*, specification
    vocabulary in Acme.C02.Spec, the model in Acme.C02.Model). *)
 From Coq Require Import ZArith List Bool.
-From Acme.C02 Require Import Model Spec ProofsBits ProofsFilters Proofs.
+From Acme.C02 Require Import Model Spec ProofsBits ProofsFilters Proofs History HistoryProofs.
 Import ListNotations.
 Local Open Scope Z_scope.
 
@@ -82,3 +82,38 @@ Theorem masks_disjoint_refuted :
     Z.land (f_mask f) (f_mask g) <> 0.
 Proof. exact Proofs.masks_disjoint_refuted. Qed.
 Print Assumptions masks_disjoint_refuted.
+
+(* --- the message as a state machine (Acme.C02.History): append / insert / remove / SetByteOrder /
+       any size- or position-changing edit of a placed signal / resize, for all histories *)
+Theorem byte_order_propagates : forall bits ops s,
+  In s (m_sigs (run bits ops)) -> s_be s = m_be (run bits ops).
+Proof. exact HistoryProofs.byte_order_propagates. Qed.
+Print Assumptions byte_order_propagates.
+
+(* what Filters() returns always describes the current layout in the byte order of the message *)
+Theorem filters_fresh : forall bits ops,
+  filters (run bits ops) = gen_filters (layout_of (run bits ops)).
+Proof. exact HistoryProofs.filters_fresh. Qed.
+Print Assumptions filters_fresh.
+
+Theorem decode_fresh : forall bits ops data,
+  decode_msg (run bits ops) data = decode (layout_of (run bits ops)) data.
+Proof. exact HistoryProofs.decode_fresh. Qed.
+Print Assumptions decode_fresh.
+
+Theorem layout_of_geometry : forall bits ops,
+  map (fun s => (s_id s, s_start s, s_size s, s_kind s)) (layout_of (run bits ops)) =
+  map (fun s => (s_id s, s_start s, s_size s, s_kind s)) (m_sigs (run bits ops)).
+Proof. exact HistoryProofs.layout_of_geometry. Qed.
+Print Assumptions layout_of_geometry.
+
+(* the cached slice is not such a description: the two ways it went stale before 11d2260 *)
+Theorem cache_stale_after_append :
+  exists ops, m_cache (run 64 ops) <> gen_filters (layout_of (run 64 ops)).
+Proof. exact HistoryProofs.cache_stale_after_append. Qed.
+Print Assumptions cache_stale_after_append.
+
+Theorem cache_stale_after_resize_of_signal :
+  exists ops, m_cache (run 64 ops) <> gen_filters (layout_of (run 64 ops)).
+Proof. exact HistoryProofs.cache_stale_after_resize_of_signal. Qed.
+Print Assumptions cache_stale_after_resize_of_signal.
